@@ -189,6 +189,34 @@ func c13(c *wk.Ctx) {
 				}
 			}
 		}
+		// very long variadic commands (a DEL / MSET of tens of thousands of keys): positions beyond 2^15 and 2^16
+		for _, n := range []int{32767, 32768, 40000, 65535, 65536, 70001} {
+			for _, cmd := range []string{"del", "mset"} {
+				var args [][]byte
+				for k := 0; len(args) < n; k++ {
+					key := fmt.Sprintf("ok:k%d", k)
+					if k%3 == 2 || k >= n/2-5 && k%2 == 1 {
+						key = fmt.Sprintf("no:k%d", k)
+					}
+					args = append(args, []byte(key))
+					if cmd == "mset" {
+						args = append(args, []byte(fmt.Sprintf("v%d", k)))
+					}
+				}
+				r.Count("very_long_commands", 1)
+				wantArgs, wantDrop := cfg.ref.Rewrite(cmd, args)
+				got, reject, pan := call(cmd, args)
+				r.Case(fmt.Sprintf("%s|%s|huge%d", cfg.name, cmd, n))
+				if pan != "" || reject != wantDrop || (!wantDrop && !eqArgv(got, wantArgs)) {
+					d := 0
+					for d < len(got) && d < len(wantArgs) && bytes.Equal(got[d], wantArgs[d]) {
+						d++
+					}
+					r.Violationf("C13|cmd="+cmd+"|outcome=very-long-command-rewritten-wrongly", map[string]interface{}{"config": cfg.name, "cmd": cmd, "arguments": len(args)},
+						"%s with %d arguments under %s: forwarded %d arguments (dropped=%v, panic=%q), expected %d (dropped=%v); first difference at argument %d", cmd, len(args), cfg.name, len(got), reject, pan, len(wantArgs), wantDrop, d)
+				}
+			}
+		}
 		// the tool's own checkpoint key never passes, even when whitelisted by prefix
 		for _, cmd := range []string{"hset", "del", "unlink"} {
 			args := [][]byte{[]byte("redis-shake-checkpoint"), []byte("f"), []byte("v")}
